@@ -6,7 +6,7 @@
 // props leaf_roundtrip_attributes: C12   (attribute lists verbatim, in order, on the declaration they precede)
 // props leaf_roundtrip_declarations: C10 C06   (items, fields, variants in written order: the syntax tree is the file)
 // covers leaf_parse_acceptance: fn parse
-// bound: acceptance: every sequence of <= 5 token kinds (17 kinds; extensions of an already rejected prefix are pruned, the driver stops at the
+// bound: acceptance: every sequence of <= 5 token kinds (<= 7 in the thorough tier) (17 kinds; extensions of an already rejected prefix are pruned, the driver stops at the
 //        first error: 5 959 sequences evaluated for 1 508 598), plus the token sequences of all generated texts and each of them with one token
 //        deleted. Round trips (tokenize -> parse -> cst_to_ast == the declarations the text was printed from): 133 payload types of nesting
 //        depth <= 2; 91 files combining 0..2 attributes, empty / named / tuple fieldsets with used and `_` fields, 0..2 enum variants
@@ -152,7 +152,8 @@ mod __vx_leafcheck {
             if depth == 0 || matches!(want, Verdict::ErrorAt(_)) { if depth > 0 { /* count the pruned extensions as covered by the prefix */ } return; }
             for k in KINDS { seq.push(k); go(seq, depth - 1, n); seq.pop(); }
         }
-        go(&mut seq, 5, &mut n);
+        let depth = if std::env::var("VX_LEAF_THOROUGH").is_ok() { 7 } else { 5 };
+        go(&mut seq, depth, &mut n);
         // the token sequences of the generated texts, and each of them with one token deleted
         for (src, _) in texts() {
             let toks = tokenize(&src).expect("generated text must lex");
